@@ -34,6 +34,10 @@ def main():
         rc, o = sh(['git', '-C', wt, 'apply', '--whitespace=nowarn', patch])
         res['patch_applies'] = rc == 0
         if rc != 0:
+            rc, o2 = sh('patch -p1 -F3 --no-backup-if-mismatch < %s' % patch, cwd=wt)
+            res['patch_applies_with_fuzz'] = rc == 0
+            o += o2
+        if rc != 0:
             res['apply_error'] = o[-500:]
             print(json.dumps(res, indent=1))
             return 1
